@@ -469,11 +469,237 @@ def aset(rng):
     return _fmt_a(toks)
 
 
+# ----------------------------------------------------------------------------- ALGEBRAIC-typed ends that denote RATIONALS
+# lp_value_is_integer / floor / ceiling of an LP_VALUE_ALGEBRAIC value go through lp_algebraic_number_is_integer etc.;
+# root isolation and lp_algebraic_number_construct leave rational roots in three shapes: collapsed to a dyadic POINT
+# (3/2 of 2x-3 on (1,2); every integer), a LINEAR defining polynomial with an interval (1/3 of 3x-1; 3/2 of 2x-3 on
+# (5/4,7/4)), a REDUCIBLE defining polynomial with an interval (1/3 of (3x-1)(x^2-2)).  The reference takes the denotation.
+def _dy(fr):
+    """'a/n' (a/2^n, normalised) of a dyadic Fraction"""
+    return "%d/%d" % (fr.numerator, fr.denominator.bit_length() - 1)
+
+
+def _pmul(p, q):
+    out = [0] * (len(p) + len(q) - 1)
+    for i, a in enumerate(p):
+        for j, b in enumerate(q):
+            out[i + j] += a * b
+    return out
+
+
+def _cofactor(rng, v):
+    """(coefficients low..high, sorted numeric keys of the real roots) of a primitive polynomial with g(v) != 0, g(0) != 0"""
+    for _ in range(20):
+        k = rng.random()
+        if k < 0.45:
+            m = rng.choice([2, 3, 5, 7, 8])
+            s = Fraction(isqrt(m * _SC * _SC), _SC)
+            g, roots = [-m, 0, 1], [-s, s]
+        elif k < 0.75:
+            c = rng.choice([-3, -2, -1, 1, 2, 3, 4, 5])
+            g, roots = [-c, 1], [Fraction(c)]
+        elif k < 0.85:
+            g, roots = [1, 0, 1], []                      # x^2 + 1: no real root
+        else:
+            n, d = rng.choice([(1, 2), (-1, 2), (5, 2), (2, 3), (7, 4), (-4, 3)])
+            g, roots = [-n, d], [Fraction(n, d)]
+        if all(abs(r - v) > Fraction(1, 1000) for r in roots):
+            return g, roots
+    return [1, 0, 1], []
+
+
+def _isolating(rng, v, others):
+    """open dyadic interval (lo, hi) around v, no element of `others` inside or at an end; wide (holding integers:
+    the library bisects, dyadic values collapse to a point) or narrow (kept as it is)"""
+    for _ in range(40):
+        t = rng.choice([0, 0, 1, 2, 3, 6])
+        sc = 2 ** t
+        lo = Fraction((v * sc).__floor__() - rng.choice([0, 0, 1, 2]), sc)
+        hi = Fraction((v * sc).__ceil__() + rng.choice([0, 0, 1, 2]), sc)
+        if lo == v:
+            lo -= Fraction(1, sc)
+        if hi == v:
+            hi += Fraction(1, sc)
+        if all(o < lo - Fraction(1, 1000) or o > hi + Fraction(1, 1000) for o in others):
+            return lo, hi
+    return None
+
+
+def a_ratalg(v, rng):
+    """(key, token): an ALGEBRAIC-typed value denoting the rational v (integer or not)"""
+    n, d = v.numerator, v.denominator
+    lin = [-n, d]
+    for _ in range(20):
+        k = rng.random()
+        if k < 0.25 or v == 0:
+            if v != 0 and rng.random() < 0.15:
+                return v, "r:%s:0" % ",".join(map(str, _pmul(lin, lin)))       # (d x - n)^2
+            return v, "r:%d,%d:0" % (-n, d)                                    # linear, root isolation
+        if k < 0.55:
+            iv = _isolating(rng, v, [])
+            if iv:
+                return v, "a:%d,%d:%s:%s" % (-n, d, _dy(iv[0]), _dy(iv[1]))    # linear, chosen isolating interval
+            continue
+        if d == 1 and k < 0.65:
+            return v, "r:%d,0,1:%d" % (-n * n, 1 if n > 0 else 0)               # x^2 - n^2
+        g, roots = _cofactor(rng, v)
+        p = _pmul(lin, g)
+        if k < 0.8:
+            return v, "r:%s:%d" % (",".join(map(str, p)), sum(1 for r in roots if r < v))
+        iv = _isolating(rng, v, roots)
+        if iv:
+            return v, "a:%s:%s:%s" % (",".join(map(str, p)), _dy(iv[0]), _dy(iv[1]))
+    return v, "r:%d,%d:0" % (-n, d)
+
+
+RFRAC = [Fraction(1, 2), Fraction(1, 2), Fraction(1, 4), Fraction(3, 4), Fraction(1, 3), Fraction(2, 3), Fraction(1, 5),
+         Fraction(3, 8), Fraction(5, 7), Fraction(1, 1000), Fraction(999, 1000), Fraction(7, 16)]
+
+
+def rat_any(v, rng, palg=0.7):
+    """the rational v as an algebraic-typed value (mostly) or as integer / dyadic / rational"""
+    return a_ratalg(v, rng) if rng.random() < palg else a_rat(v, rng)
+
+
+def _nf_codes(rng, last, maxiv):
+    """cut codes of a random normal-form set over ends[0..last] (0 = -inf, last = +inf)"""
+    for _ in range(50):
+        k = rng.randint(1, max(1, min(maxiv, last)))
+        codes = sorted(rng.sample(range(1, 2 * last + 1), min(2 * k, 2 * last)))
+        if len(codes) % 2:
+            codes.pop()
+        if _codes_ok(codes, last):
+            return codes
+    return []
+
+
+def _codes_ok(codes, last):
+    if len(codes) % 2 or any(c < 1 or c > 2 * last for c in codes):
+        return False
+    if any(codes[i] >= codes[i + 1] for i in range(len(codes) - 1)):
+        return False
+    for i in range(0, len(codes), 2):
+        l, h = codes[i], codes[i + 1]
+        if l // 2 == last or h // 2 == 0 or (l // 2 == h // 2 and l // 2 in (0, last)):
+            return False
+    return True
+
+
+def _toks_of_codes(rng, codes, keys, tokfun):
+    """interval tokens of cut codes over -inf, keys..., +inf; every use of a value draws its representation anew"""
+    last = len(keys) + 1
+    def e(i):
+        return "-inf" if i == 0 else "+inf" if i == last else tokfun(keys[i - 1], rng)[1]
+    toks = []
+    for i in range(0, len(codes), 2):
+        l, h = codes[i], codes[i + 1]
+        if l // 2 == h // 2:
+            t = e(l // 2)
+            toks.append((t, False, t, False))
+        else:
+            toks.append((e(l // 2), l % 2 == 1, e(h // 2), h % 2 == 0))
+    return toks
+
+
+def _rat_cluster(rng):
+    """a few rationals in a window of 1..4 units: integers and fractions, so that intervals hold 0..3 integers"""
+    z0 = rng.randint(-7, 9)
+    vals = set()
+    for _ in range(rng.randint(2, 6)):
+        z = z0 + rng.randint(0, rng.choice([1, 2, 4]))
+        vals.add(Fraction(z) + (0 if rng.random() < 0.35 else rng.choice(RFRAC)))
+    return sorted(vals)
+
+
+def _mixed_tok(v, rng):
+    return rat_any(v, rng, 0.65)
+
+
+def ratalg_set(rng):
+    """op A: sets whose ends are algebraic-typed RATIONALS (integers and non-integers)"""
+    k = rng.random()
+    z = rng.randint(-7, 9)
+    f = rng.choice(RFRAC)
+    if k < 0.12:
+        t = a_ratalg(Fraction(z) + (f if rng.random() < 0.7 else 0), rng)[1]
+        return _fmt_a([(t, False, t, False)])
+    if k < 0.30:
+        # a non-integer algebraic-typed point and integer points: the pick must be an integer, exactly those are counted
+        pts = {Fraction(z) + f: True}
+        for _ in range(rng.randint(1, 2)):
+            w = Fraction(z + rng.randint(-3, 3))
+            pts.setdefault(w + (rng.choice(RFRAC) if rng.random() < 0.3 else 0), rng.random() < 0.5)
+        ts = [(a_ratalg(v, rng) if alg else a_rat(v, rng))[1] for v, alg in sorted(pts.items())]
+        return _fmt_a([(t, False, t, False) for t in ts])
+    if k < 0.55:
+        # one interval: algebraic-typed rational end(s), 0..3 integers inside, ends at / next to integers
+        lo = Fraction(z) + (0 if rng.random() < 0.3 else f)
+        hi = Fraction(z + rng.choice([0, 0, 1, 1, 2, 3])) + (0 if rng.random() < 0.3 else rng.choice(RFRAC))
+        if lo > hi:
+            lo, hi = hi, lo
+        if lo == hi:
+            hi += rng.choice(RFRAC)
+        a, b = rat_any(lo, rng, 0.85), rat_any(hi, rng, 0.6)
+        if rng.random() < 0.15:
+            b = a_sqrt(rng.choice(NONSQ[:12]), 1) if hi > 0 else b
+            if b[0] <= lo:
+                b = rat_any(hi, rng, 0.6)
+        return _fmt_a([(a[1], rng.random() < 0.5, b[1], rng.random() < 0.5)])
+    keys = _rat_cluster(rng)
+    if rng.random() < 0.3:
+        keys = sorted(set(keys + [Fraction(z + 6) + rng.choice(RFRAC), Fraction(z + 8)]))
+    codes = _nf_codes(rng, len(keys) + 1, 4)
+    return _fmt_a(_toks_of_codes(rng, codes, keys, _mixed_tok))
+
+
+def _mut_codes(rng, codes, last):
+    c = list(codes)
+    for _ in range(rng.randint(1, 3)):
+        k = rng.random()
+        if k < 0.5 and c:
+            c[rng.randrange(len(c))] += rng.choice([-2, -1, 1, 2])
+        elif k < 0.7 and len(c) >= 2:
+            i = rng.randrange(0, len(c) - 1)
+            del c[i:i + 2]
+        else:
+            x = rng.randint(1, 2 * last - 1)
+            c += [x, x + rng.choice([1, 1, 2, 3])]
+    c = sorted(set(c))
+    if len(c) % 2:
+        c.pop(rng.randrange(len(c)))
+    return c
+
+
+def ratalg_pair(rng):
+    """op S: two normal-form sets over one cluster of rationals (plus an irrational now and then); the same number is
+    an integer / dyadic / rational in one place and an algebraic-typed value in another"""
+    keys = _rat_cluster(rng)
+    toks = {}
+    if rng.random() < 0.4:
+        key, tok = a_sqrt(rng.choice(NONSQ[:12]), rng.choice([1, -1]), explicit=rng.random() < 0.3)
+        if all(abs(key - v) > Fraction(1, 1000) for v in keys):
+            keys = sorted(keys + [key])
+            toks[key] = tok
+    def tokfun(v, r):
+        return (v, toks[v]) if v in toks else _mixed_tok(v, r)
+    last = len(keys) + 1
+    for _ in range(50):
+        c1 = _nf_codes(rng, last, 3)
+        k = rng.random()
+        c2 = _mut_codes(rng, c1, last) if k < 0.5 else list(c1) if k < 0.6 else _nf_codes(rng, last, 3)
+        if rng.random() < 0.5:
+            c1, c2 = c2, c1
+        if _codes_ok(c1, last) and _codes_ok(c2, last):
+            return _fmt_a(_toks_of_codes(rng, c1, keys, tokfun)), _fmt_a(_toks_of_codes(rng, c2, keys, tokfun))
+    return "{}", "{}"
+
+
 # ----------------------------------------------------------------------------- entry points
 def generate(rng, tier):
     cases = ["POOL"]
     nB, nC, nQ = (6000, 1500, 2000) if tier == "quick" else (20000, 4000, 6000)
     nA = 1500 if tier == "quick" else 6000
+    nR, nS = (400, 300) if tier == "quick" else (1600, 1200)
     for _ in range(nB):
         c1, c2 = pair(rng)
         cases.append("B * %s %s" % (fmt_set(rng, c1), fmt_set(rng, c2)))
@@ -484,6 +710,12 @@ def generate(rng, tier):
         cases.append("Q %s" % qset(rng))
     for _ in range(nA):
         cases.append("A %s" % aset(rng))
+    # algebraic-typed ends denoting rationals: integer queries / picks (A) and set operations (S).  Appended AFTER the
+    # older classes so that their random stream (and what it happens to reach) stays what it was; append new classes here.
+    for _ in range(nR):
+        cases.append("A %s" % ratalg_set(rng))
+    for _ in range(nS):
+        cases.append("S %s %s" % ratalg_pair(rng))
     if tier == "thorough":
         cases += exhaustive_cases()
     return cases
@@ -517,6 +749,8 @@ def tag(case):
         return "%s:%d,%d" % ("X" if _is_exh(t) else "B", min(n1, 3), min(n2, 3))
     if t[0] in ("Q", "A") and len(t) == 2:
         return "%s:%d" % (t[0], 0 if t[1] == "{}" else min(t[1].count(";") + 1, 3))
+    if t[0] == "S" and len(t) == 3:
+        return "S:%d,%d" % tuple(0 if x == "{}" else min(x.count(";") + 1, 3) for x in t[1:])
     return t[0]
 
 
@@ -532,6 +766,8 @@ def nontrivial(case):
         return False
     if t[0] in ("Q", "A"):
         return len(t) == 2 and t[1] != "{}"
+    if t[0] == "S":
+        return len(t) == 3 and t[1] != "{}" and t[2] != "{}"
     return t[0] == "C"
 
 
@@ -544,7 +780,13 @@ def explain(case, c_out, m_out):
              "v": "add(s2,s1)", "a": "add(s1,s1) aliased", "k": "intersect(s1,s1)", "w": "add into a used set",
              "f": "is_empty/is_full/is_point of s1,s2,intersection,union", "m": "membership sweeps s1,s2,intersection,union",
              "c": "lp_interval_cmp of every interval pair", "t": "to_interval", "p": "pick_value (doubled rank positions)",
-             "o": "operands unchanged", "r": "relation (cmp, cmp_with_intersect fresh P, used P)", "p:": "P"}
+             "o": "operands unchanged", "r": "relation (cmp, cmp_with_intersect fresh P, used P)", "p:": "P",
+             "st": "intersect status", "q1": "contains_int,count_int,is_point_int,per interval contains_int,count_int of s1",
+             "q2": "the same of s2", "qi": "the same of the intersection", "qu": "the same of the union",
+             "ki": "pick_value of the intersection", "ku": "pick_value of the union",
+             "ci": "contains_int", "cnt": "count_int", "pi": "is_point_int", "ici": "lp_interval_contains_int per interval",
+             "icnt": "lp_interval_count_int per interval", "pk": "pick_value", "ipk": "lp_interval_pick_value per interval",
+             "pf": "pick_first_value"}
     return "; ".join("field %s [%s]: libpoly %s, model %s" % (x.split(":")[0], names.get(x.split(":")[0], ""), x, y)
                      for x, y in diff[:6]) or "line lengths differ"
 
@@ -562,7 +804,8 @@ def extra_coverage(cases, couts, mouts):
 
 RULE = ("corpus first; seeded structured generator gen/C13.py: B = pairs of normal-form sets (<= 6 intervals) over a 27-value "
         "mixed-kind pool biased to touching/nested/identical/point/complementary patterns, C = interval pairs, Q = integer queries "
-        "on rational sets; thorough adds the exhaustive 512x512 sweep; distinct = distinct case line; non-trivial = operands overlap or touch")
+        "on rational sets, A = integer queries / picks on sets with algebraic ends (irrational; ratalg_set: algebraic-typed values denoting "
+        "rationals and integers), S = intersect / union of two such sets with the results' integer queries; thorough adds the exhaustive 512x512 sweep; distinct = distinct case line; non-trivial = operands overlap or touch")
 ASSUMPTIONS = ["lp_value_cmp is the total order of the denoted numbers on the pool (asserted by the harness at start-up for the pool: "
                "strictly increasing, variants of one rank equal); this is property C08's claim",
                "LP64: long is 64 bits, int is 32 bits (count_int saturation)"]
